@@ -1,7 +1,8 @@
 """Inheritance hierarchies for C04 (also reused by C31): one Python structure that is printed
 both as Jinja sources (for the real engine) and as a driver line (for the extracted model).
 
-item     := ("s", text) | ("v", var) | ("b", block) | ("u", k) | ("f", block) | ("l", var, [vals], [items])
+item     := ("e", kind, text) (include of a constant template / call block / filter block / with block write text,
+            a block set writes nothing) | ("s", text) | ("v", var) | ("b", block) | ("u", k) | ("f", block) | ("l", var, [vals], [items])
 template := {"name", "tops": [("i", item) | ("x", cond, target, style)], "blocks": {block: (scoped, required, [items])}}
             cond: None (root level), True / False (inside {% if cK %});  style: "const" | "dynname" | "dynobj"
 hierarchy:= {"templates": [template...] (all of them go into the DictLoader), "chain": [names] (the
@@ -30,6 +31,8 @@ def src_items(items, blocks, out):
             out.append(it[1])
         elif k == "v":
             out.append("{{ %s }}" % it[1])
+        elif k == "e":
+            out.append(stmt_src(it[1], it[2]))
         elif k == "b":
             scoped, required, body = blocks[it[1]]
             out.append("{%% block %s%s%s %%}" % (it[1], " scoped" if scoped else "", " required" if required else ""))
@@ -45,6 +48,53 @@ def src_items(items, blocks, out):
             out.append("{% endfor %}")
         else:
             raise AssertionError(it)
+
+
+def aux_name(text):
+    return "inc_" + "_".join(str(ord(c)) for c in text)
+
+
+def stmt_src(kind, text):
+    if kind in ("inc", "incw"):
+        return "{%% include %r%s %%}" % (aux_name(text), " without context" if kind == "incw" else "")
+    if kind == "call":
+        return "{%% macro _mc() %%}<{{ caller() }}>{%% endmacro %%}{%% call _mc() %%}%s{%% endcall %%}" % text
+    if kind == "filter":
+        return "{%% filter default(%r, true) %%}{%% endfilter %%}" % text
+    if kind == "filterb":
+        return "{%% filter upper %%}%s{%% endfilter %%}" % text
+    if kind == "with":
+        return "{%% with zz = 1 %%}%s{%% endwith %%}" % text
+    if kind == "set":
+        return "{%% set zs %%}%s{%% endset %%}" % text
+    raise AssertionError(kind)
+
+
+def stmt_text(kind, text):
+    """what the statement writes when it is executed"""
+    if kind == "call":
+        return "<" + text + ">"
+    if kind == "filterb":
+        return text.upper()
+    if kind == "set":
+        return ""
+    return text
+
+
+def aux_templates(h):
+    res = {}
+
+    def walk(items, t):
+        for it in items:
+            if it[0] == "e" and it[1] in ("inc", "incw"):
+                res[aux_name(it[2])] = it[2]
+            elif it[0] == "l":
+                walk(it[3], t)
+    for t in h["templates"]:
+        walk([top[1] for top in t["tops"] if top[0] == "i"], t)
+        for sc, rq, body in t["blocks"].values():
+            walk(body, t)
+    return res
 
 
 def source(t, index):
@@ -86,7 +136,9 @@ def extends_data(h, env=None):
 
 
 def sources(h):
-    return {t["name"]: source(t, i) for i, t in enumerate(h["templates"])}
+    res = {t["name"]: source(t, i) for i, t in enumerate(h["templates"])}
+    res.update(aux_templates(h))
+    return res
 
 
 # ---------------------------------------------------------------- printing as a driver line
@@ -100,6 +152,8 @@ def enc_item(it, out):
     k = it[0]
     if k == "s":
         out += ["s", enc_str(it[1])]
+    elif k == "e":
+        out += ["e", enc_str(stmt_text(it[1], it[2]))]
     elif k == "v":
         out += ["v", str(VAR_IDS[it[1]])]
     elif k == "b":
@@ -200,6 +254,10 @@ def features(h):
                 if where in ("blk", "blk-nested"):
                     f.add("nested-block")
                 walk(body, t, False, "blk")
+            elif it[0] == "e":
+                f.add("stmt-" + it[1])
+                if where == "post":
+                    f.add("child-post-stmt-" + it[1])
             elif it[0] == "u":
                 f.add("super" if it[1] == 0 else "super.super")
             elif it[0] == "f":
@@ -253,14 +311,21 @@ class HGen:
         r = self.r
         return "".join(r.choice(TEXT_ALPHABET) for _ in range(r.randint(1, 3)))
 
+    def stmt(self):
+        r = self.r
+        kind = r.choice(["inc", "inc", "incw", "call", "filter", "filterb", "with", "set"])
+        return ("e", kind, "".join(r.choice("abcxyz0123456789") for _ in range(r.randint(1, 2))))
+
     def body(self, t, names, pending, nest, inloop, lvl):
         """items of a block body / loop body; may place the definitions of some pending blocks"""
         r = self.r
         items = []
         for _ in range(r.randint(0, 3)):
             k = r.random()
-            if k < 0.30:
+            if k < 0.24:
                 items.append(("s", self.text()))
+            elif k < 0.30:
+                items.append(self.stmt())
             elif k < 0.40:
                 items.append(("v", r.choice(["i", "k", "x", "y"])))
             elif k < 0.62:
@@ -300,8 +365,10 @@ class HGen:
                 k = r.random()
                 if k < 0.45 and pending:
                     t["tops"].append(("i", self.place(t, names, pending, 1, False, lvl)))
-                elif k < 0.6:
+                elif k < 0.52:
                     t["tops"].append(("i", ("s", self.text())))
+                elif k < 0.6:
+                    t["tops"].append(("i", self.stmt()))
                 elif k < 0.7:
                     t["tops"].append(("i", ("f", r.choice(names))))
                 elif k < 0.75:
